@@ -257,9 +257,27 @@ def scan_forbidden():
     return bad
 
 
+class _CoqLock:
+    """Several checks may run at the same time: everything that runs make / coqc / extraction in coq/ and ocaml/ is serialised
+    (otherwise one process deletes a .vo another is reading, or captures no Print Assumptions output because a concurrent make
+    rebuilt the file first)."""
+    def __enter__(self):
+        import fcntl
+        os.makedirs(BUILD, exist_ok=True)
+        self.fh = open(os.path.join(BUILD, "coq.lock"), "w")
+        fcntl.flock(self.fh, fcntl.LOCK_EX)
+        return self
+
+    def __exit__(self, *a):
+        import fcntl
+        fcntl.flock(self.fh, fcntl.LOCK_UN)
+        self.fh.close()
+
+
 def coq_build(targets=()):
     """(Re)builds the development with make -k.  Returns (ok, log)."""
-    p = subprocess.run([os.path.join(ROOT, "tools", "build_model.sh")] + list(targets), capture_output=True, text=True)
+    with _CoqLock():
+        p = subprocess.run([os.path.join(ROOT, "tools", "build_model.sh")] + list(targets), capture_output=True, text=True)
     return p.returncode == 0, p.stdout + p.stderr
 
 
@@ -275,11 +293,12 @@ def proof_status(prop_file):
     examples = re.findall(r"^\s*Example\s+(\w+)", txt_nc, flags=re.M)
     # force recompilation of the property file so that its output is captured
     vo = os.path.join(COQ, rel)
-    if os.path.exists(vo):
-        os.remove(vo)
-    p = subprocess.run(["make", "-k", "-j%d" % NPROC, rel], cwd=COQ, capture_output=True, text=True)
-    log = p.stdout + p.stderr
-    ok = p.returncode == 0 and os.path.exists(vo)
+    with _CoqLock():
+        if os.path.exists(vo):
+            os.remove(vo)
+        p = subprocess.run(["make", "-k", "-j%d" % NPROC, rel], cwd=COQ, capture_output=True, text=True)
+        log = p.stdout + p.stderr
+        ok = p.returncode == 0 and os.path.exists(vo)
     axioms = {}
     cur = None
     closed = 0
